@@ -37,6 +37,7 @@ SPEC_MODULES = {
     "C16": ["specs.c16_buffered"],
     "C17": ["specs.c17_tls"],
     "C18": ["specs.c18_sockets"],
+    "C19": ["specs.c19_iter"],
     "C20": ["specs.c20_lru"],
 }
 
